@@ -97,6 +97,33 @@ CLAIMED = {
         "setup self-test), the JSON adapters in harness/impl_helpers.py. Bounds: n<=4..7, |step|<=3.",
         "DESIGN.md §4 C13",
     ),
+    "C14": (
+        "TLC-enumerated ArrayProgram behaviours with Rechunk / RechunkSpec actions replayed; advertised chunks validated by TLC "
+        "(Collection.RechunkSpecVerdict) against the specification and normalize_chunks, blocks and per-phase values validated "
+        "like C03 / C02",
+        "Exhaustive within bounds over the lean domains: rechunk by explicit grid and by specification (ints incl. larger than the "
+        "axis, -1, None, 'auto'; tuple / dict / scalar form; balance) alone, after every operation, before every operation and in "
+        "slice/rechunk chains of depth 3.  TLC checks that the advertised chunks are a chunking of the shape, equal what "
+        "normalize_chunks gives for the same arguments, and equal the requested layout axis by axis (uniform size with a smaller "
+        "last block, whole axis, previous chunks); with balance=True: a chunking with no more blocks than requested.  The rechunked "
+        "collection and its consumers are executed: block sizes = advertised chunks, values in every phase = the denotation.",
+        "Unknown (nan) sizes along unchanged axes are not generated. False alarm corrected: a 'balanced result has no larger "
+        "spread' clause demanded more than the property states and was removed.",
+        "DESIGN.md §4 C14, §9",
+    ),
+    "C20": (
+        "TLC-enumerated ArrayProgram behaviours with MapBlocks actions replayed; every invocation of the block function recorded and "
+        "validated by TLC against the layout snapshot (MapBlocksInfo.BlockInfoVerdict)",
+        "Exhaustive within bounds: the block function derives each element's global position only from the block_info / block_id it "
+        "is given.  Programs place the call alone (every preset shape and grid), above every lean operation and above "
+        "sliding-window reductions over every chunking of 1-D sources up to 8 elements, below every lean operation, and in chains "
+        "with slices / rechunks / transposes.  TLC requires every invocation to be a block of the layout advertised when map_blocks "
+        "was called (location on the grid, array-location = extent of that block, chunk-shape / num-chunks / shape consistent, "
+        "block_id = chunk-location) with the block handed over having exactly that shape, and the computed value to equal the "
+        "denotation.",
+        "Culled or repeated invocations are allowed. Computations that raise are C08's subject.",
+        "DESIGN.md §4 C20, §9",
+    ),
     "C15": (
         "TLC-enumerated (old grid, new grid, configuration) inputs; recorded plans and crosswalks validated by TLC (Trace_Plan)",
         "Exhaustive within bounds: every pair of chunkings of every preset shape (1-D to 3-D) x (itemsize, threshold, "
